@@ -4,7 +4,7 @@ harness/rt/src/bin/drv.rs."""
 import random
 
 OPS = {1: "recv", 2: "send", 3: "blocking", 4: "write", 5: "poll", 6: "pop", 7: "dropkey",
-       8: "cancel", 9: "token", 10: "dropdriver", 11: "peer_read", 12: "send_zc", 13: "pop_multishot", 14: "accept_multi", 15: "connect"}
+       8: "cancel", 9: "token", 10: "dropdriver", 11: "peer_read", 12: "send_zc", 13: "pop_multishot", 14: "accept_multi", 15: "connect", 16: "wake", 17: "set_waker", 18: "recv_dup"}
 
 
 def gen_program(rng, mode):
@@ -32,7 +32,9 @@ def gen_program(rng, mode):
                 break
         if what == "push" or not have:
             k = rng.random()
-            if k < 0.65:
+            if k < 0.12:
+                steps.append((18, rng.randrange(n_res), rng.choice([1, 2, 3, 5, 8])))
+            elif k < 0.65:
                 steps.append((1, rng.randrange(n_res), rng.choice([1, 2, 3, 5, 8, 16])))
             elif k < 0.78:
                 steps.append((2, rng.randrange(n_res), rng.choice([1, 3, 8, 40])))
@@ -53,6 +55,11 @@ def gen_program(rng, mode):
             if written[res] + k < 240:
                 written[res] += k
                 steps.append((4, res, k))
+        elif what == "poll" and rng.random() < 0.2:
+            steps.append((16, 0, 0))
+            steps.append((5, rng.choice([0, 0, 5]), 0))
+        elif what == "pop" and rng.random() < 0.3 and nslots > 0:
+            steps.append((17, rng.randrange(nslots), len(steps) % 16))
         elif what == "poll":
             if mode == "c05" and rng.random() < 0.35:
                 # something else is ready when the driver is polled
@@ -93,7 +100,7 @@ def templated(rng):
     """structured scenarios (mostly valid, specific multi-step shapes) with random variation"""
     drv = rng.choice([0, 1, 1])
     cap = rng.choice([1, 2, 4, 1024])
-    t = rng.randrange(6)
+    t = rng.randrange(9)
     S = []
     if t == 0:
         # several operations queued on ONE descriptor, one of them (often the head) is cancelled
@@ -141,6 +148,31 @@ def templated(rng):
             S.append((3, rng.choice([0, 2, 10]), 0))
         S.append((rng.choice([5, 7, 10]), rng.choice([0, 1]), 0))
         S += [(5, 10, 0)] + [(6, i, 0) for i in range(k)]
+    elif t == 6:
+        # two descriptors of one socket, each with a pending receive, fewer chunks than waiters:
+        # the loser must complete when new data arrives for it
+        S += [(1, 0, 4), (18, 0, 4)]
+        if rng.random() < 0.5:
+            S.append((1, 0, 4))
+        S += [(4, 0, rng.choice([1, 2])), (5, 10, 0), (5, 5, 0), (4, 0, rng.choice([1, 3])), (5, 10, 0), (5, 5, 0),
+              (4, 0, 2), (5, 10, 0), (5, 5, 0), (6, 0, 0), (6, 1, 0), (6, 2, 0)]
+    elif t == 7:
+        # the waker of a pending operation is replaced before it completes
+        S.append((rng.choice([1, 1, 3]), 0, 4))
+        S += [(17, 0, 1), (5, 0, 0), (17, 0, 2)]
+        if rng.random() < 0.5:
+            S += [(5, 0, 0), (17, 0, 3)]
+        S += [(4, 0, 3), (5, 10, 0), (5, 5, 0), (6, 0, 0)]
+    elif t == 8:
+        # a thread-pool job finishes while the driver keeps being woken
+        k = rng.randrange(1, 3)
+        for _ in range(k):
+            S.append((3, rng.choice([0, 1, 3]), 0))
+        S.append((5, 0, 0))
+        S.append((4, 0, 0))
+        for _ in range(rng.randrange(3, 6)):
+            S += [(16, 0, 0), (5, rng.choice([0, 5, 10]), 0)]
+        S += [(6, i, 0) for i in range(k)]
     else:
         # cancel after completion / twice, neighbours keep their data
         S += [(1, 0, 4), (1, 0, 4), (4, 0, 8), (5, 10, 0), (5, 5, 0)]
